@@ -252,6 +252,7 @@ class Env:
         return {'out': self.enc_out(o), 'cur': self.tid(main.current_tt),
                 'main_secs': self.num(main.main_tt._m_seconds),
                 'states': [r.state.value - 1 for r in self.routines],
+                'fresh': [r._iterator is None for r in self.routines],
                 'queue': [[self.num(e[0]), self.tid(e[2].task) - 1] for e in q],
                 'cells': cells, 'loglen': len(self.logl)}
 
